@@ -55,6 +55,8 @@ def keyIdxs : List (Option Nat) := [none, some 1, some 5, some 12, some 13, some
 def memsFull (size : Nat) : List Mem := memShapes allBases allIdxs [1, 2, 4, 8] dispValues [false, true] size
 def memsKey (size : Nat) : List Mem := memShapes keyBases keyIdxs [1, 2, 8] dispFew [false] size ++
   memShapes [some 3, some 5, some 9] [none, some 6, some 13] [4] [0, 0x44] [true] size
+def memsMid (size : Nat) : List Mem := memShapes [none, some 0, some 4, some 5, some 12, some 13] [none, some 1, some 13] [1, 4] [0, 8, -0x81] [false] size ++
+  memShapes [some 3, some 13] [none, some 6] [2] [0x44] [true] size
 def memsFew (size : Nat) : List Mem := [mkMem size false (some 3) none 1 0, mkMem size false (some 13) (some 1) 4 (-0x20)]
 
 def noMems (_ : Nat) : List Mem := []
@@ -64,13 +66,20 @@ def fillRegs : Fill := { mems := noMems, imms := fewImm, rels8 := [], rels32 := 
 structure Item where
   text : String
   want : Dec
+  wmn  : String := ""      -- the mnemonic as written (a synonym of `want.mn` possibly)
+  relKw : Nat := 0          -- 0 none, 1 short, 2 long
 
-def items (st : Style) (ds : List Dec) : List Item := ds.map fun d => { text := d.asm st, want := d }
+def relKwOf (st : Style) : Nat := if st.relKw == "short " then 1 else if st.relKw == "long " then 2 else 0
+
+def items (st : Style) (ds : List Dec) : List Item :=
+  ds.map fun d => { text := d.asm st, want := d, wmn := if d.mn == "callf" then "call" else if d.mn == "jmpf" then "jmp" else d.mn,
+                    relKw := relKwOf st }
 
 /-- synonym spellings of an instance -/
 def withSynonyms (st : Style) (d : Dec) : List Item :=
-  { text := d.asm st, want := d } ::
-    (synonyms.filter (fun p => p.2 == d.mn)).map fun p => { text := ({ d with mn := p.1 } : Dec).asm st, want := d }
+  (items st [d]) ++
+    (synonyms.filter (fun p => p.2 == d.mn)).map fun p =>
+      { text := ({ d with mn := p.1 } : Dec).asm st, want := d, wmn := p.1, relKw := relKwOf st }
 
 /-- C01: integer instructions whose operands are registers (and the no-operand instructions) -/
 def famC01 : List Item :=
@@ -94,7 +103,7 @@ def fewRegs (ds : List Dec) : List Dec :=
 def famC02 (level : Nat) : List Item :=
   (table.filter fun en => hasRm en && !hasRel en).flatMap fun en =>
     let rep := en.mn == "mov" && en.opc == 0x8B || en.mn == "paddb" || en.mn == "vaddpd" || en.mn == "lea"
-    let mems := if level ≥ 2 && rep then memsFull else if level ≥ 1 || rep then memsKey else memsFew
+    let mems := if level ≥ 2 && rep then memsFull else if level ≥ 1 || rep then memsKey else memsMid
     let f : Fill := { mems, imms := fewImm, rels8 := [], rels32 := [], regForm := false, memForm := true }
     let ds := fewRegs (enumEnc f en)
     items {} ds ++ (if rep || level ≥ 1 then items { scaleFirst := true, kwAlways := true, num := .dec } ds else [])
